@@ -355,6 +355,30 @@ def shard_isolated(ctx, k, payload):
 
 # ---------------------------------------------------------------------------
 # (B) end to end
+def statement_sum(r, groups):
+    """total of the named boxes over every copy of the named payer statements, read from the *input file* of the
+    run (what the user typed from the paper forms), not from the lines the solver happened to evaluate"""
+    cfg = r.store.config
+    total = 0.0
+    nbox = 0
+    for form, boxes in groups:
+        try:
+            n = int(cfg.get('1040', f'number_{form}').strip())
+        except Exception:
+            n = 0
+        for c in range(n):
+            sec = f'{form}:{c}'
+            for b in boxes:
+                if cfg.has_option(sec, b):
+                    t = cfg.get(sec, b).strip()
+                    try:
+                        total += float(t) if t else 0.0
+                        nbox += 1
+                    except ValueError:
+                        return None
+    return total, nbox
+
+
 def tax_fn(year, r):
     """the year's income tax for this return's filing status, from the harness' own rate-schedule reference"""
     from hx import taxref
@@ -407,6 +431,14 @@ def check_solution(ctx, year, r, case):
                         if any(':' in f for f in inst_present):
                             skip = True
                         want = float(vals.get(f'{src_form}.{e[2]}', 0.0) or 0.0)
+                elif e[0] == 'sumstmt':
+                    want = statement_sum(r, e[1])
+                    if want is None:
+                        skip = True
+                    else:
+                        # each box is held in dollars and cents by its statement; text with sub-cent digits is rounded per box
+                        want, nbox = want
+                        tol = tol + 0.0051 * nbox
                 elif e[0] == 'addf':
                     if ':' in fname or any(':' in f for f in r.forms if f.split(':')[0] == e[1]):
                         skip = True
@@ -418,7 +450,7 @@ def check_solution(ctx, year, r, case):
                     want = None if skip else instr.evaluate(e, get, tax=tax_fn(year, r))
                 if not skip and want is not None:
                     ctx.case()
-                    got = float(vals[name])
+                    got = float(vals[name]) if vals[name] is not None else 0.0
                     ops = ins.operands()
                     nz = any(get(o) != 0 for o in ops) or got != 0 or (e[0] == 'copy' and want != 0)
                     if abs(got - want) > tol:
@@ -474,6 +506,47 @@ def check_includes(ctx, year, r, case):
             ctx.note('lines_checked_nontrivially', f'{year}:{target}|includes')
 
 
+def complete_statements(ctx, draw, sc, r):
+    """answer-on-demand only ever fills the boxes the solver asked for. A taxpayer copies *every* box of a paper
+    W-2/1099 into the file; boxes that an instruction tells to total are therefore filled in (drawn amounts) on
+    every copy where the demand-driven build left them out, and the return is solved again"""
+    cat = catalog.get(sc['year'])
+    wanted = set()
+    for fname in sorted(r.forms):
+        cat.ensure(fname)
+        form = cat.forms.get(fname)
+        if form is None:
+            continue
+        instrs, _ = instructions_for(sc['year'], fname, form, cat)
+        for ln, (ins, src) in instrs.items():
+            if ins.expr is not None and ins.expr[0] == 'sumstmt':
+                for sform, boxes in ins.expr[1]:
+                    for b in boxes:
+                        wanted.add((sform, b))
+    inputs = dict(sc['inputs'])
+    added = 0
+    for sform, b in sorted(wanted):
+        try:
+            n = int(inputs.get(f'1040.number_{sform}', '0').strip() or 0)
+        except ValueError:
+            continue
+        for c in range(n):
+            key = f'{sform}:{c}.{b}'
+            spec = cat.inputs.get(key)
+            if key not in inputs and spec is not None and catalog.input_kind(spec) == 'float':
+                inputs[key] = f'{draw(st.integers(0, 60000)) / 100.0:.2f}'
+                added += 1
+    if not added:
+        return None, None
+    sc2 = dict(sc, inputs=inputs)
+    r2 = scenario.resolve(sc2, want_solution=False)
+    ctx.count('e2e:statements_completed')
+    if r2.exc is not None or not r2.verdict:
+        ctx.count('e2e:completed_return_not_solved')
+        return None, None
+    return sc2, r2
+
+
 def shard_e2e(ctx, k, payload):
     n, seed = payload
 
@@ -487,6 +560,10 @@ def shard_e2e(ctx, k, payload):
             ctx.count('e2e:not_solved')
             return
         ctx.count('e2e:solved_returns')
+        if data.draw(st.booleans()):
+            sc2, r2 = complete_statements(ctx, data.draw, sc, r)
+            if r2 is not None:
+                sc, r = sc2, r2
         check_solution(ctx, sc['year'], r, {'scenario': scenario.slim(sc)})
         check_includes(ctx, sc['year'], r, {'scenario': scenario.slim(sc)})
         if len(ctx.samples) < 3:
